@@ -28,4 +28,41 @@ pub(crate) mod verif_rig_dt {
     pub(crate) fn no_multi_mark_zombie(_s: &mut MultiState, _i: usize) {
         panic!("verif: MultiState reached in a harness without a MultiProgress")
     }
+
+    // ---- a console::Term that is NOT a tty: is_term() = false, size query answered, every OUTPUT method panics ----
+    pub(crate) fn nontty_is_term(_t: &Term) -> bool {
+        false
+    }
+    pub(crate) fn nontty_attended(_f: &console::TermFeatures<'_>) -> bool {
+        false
+    }
+    pub(crate) fn nontty_size(_t: &Term) -> (u16, u16) {
+        (24, 80)
+    }
+    pub(crate) fn term_out_str(_t: &Term, _s: &str) -> io::Result<()> {
+        panic!("verif: terminal output operation on a hidden / non-tty target")
+    }
+    pub(crate) fn term_out_n(_t: &Term, _n: usize) -> io::Result<()> {
+        panic!("verif: terminal output operation on a hidden / non-tty target")
+    }
+    pub(crate) fn term_out0(_t: &Term) -> io::Result<()> {
+        panic!("verif: terminal output operation on a hidden / non-tty target")
+    }
+
+    // ---- the two token buckets are C05's subject (engine M decides them from their MIR). CBMC cannot finish their
+    //      64/128-bit divisions, so harnesses about OTHER properties replace them by their interface contract:
+    //      an arbitrary verdict, a fixed refusal (exhausted limiter), or a harness-controlled verdict. ----
+    pub(crate) fn rl_any(_r: &mut RateLimiter, _now: Instant) -> bool {
+        kani::any()
+    }
+    pub(crate) fn rl_refuse(_r: &mut RateLimiter, _now: Instant) -> bool {
+        false
+    }
+    pub(crate) static mut RL_VERDICT: bool = true;
+    pub(crate) fn rl_controlled(_r: &mut RateLimiter, _now: Instant) -> bool {
+        unsafe { RL_VERDICT }
+    }
+    pub(crate) fn pos_any(_p: &crate::state::AtomicPosition, _now: Instant) -> bool {
+        kani::any()
+    }
 }
